@@ -125,7 +125,7 @@ def r4(ctx):
             if c and getter in norm(t.ast) and var in names(t.ast) and c[1] in (ast.NotEq, ast.Eq):
                 out.append((t, "false" if c[1] is ast.NotEq else "true"))      # already that id
         return out
-    p = g.path(g.entry, [g.exit], without_nodes=setg, without_edges=exempt_edges(GID, "getgid"), follow_exc=False)
+    p = g.path(g.entry, [g.exit], without_nodes=setg, without_edges=exempt_edges(GID, "getgid"), follow_exc=True)
     ctx.check("C20.R4", bool(setg) and p is None, key(f, "primary-group-set"), site(f),
               "a path through set_owner_process with a group configured never calls os.setgid(): with initgroups on, only os.initgroups() runs, which sets the supplementary "
               "groups but leaves the real/effective/saved gid of the master (root) in place", "os.setgid on every path with a (different) gid", path=p and g.fmt_path(p))
